@@ -156,9 +156,13 @@ class Engine:
         self.globals[name] = RecordClass(name, self.tenv.records[name], defaults or {})
         return pt
 
-    def declare_class(self, name, fields):
+    def declare_class(self, name, fields, dataclass=False):
         pt = self.tenv.declare_class(name, fields)
         self.globals[name] = ObjClass(name)
+        if dataclass:  # generated __init__: positional / keyword arguments assigned to the fields in declaration order
+            if not hasattr(self, "dataclasses"):
+                self.dataclasses = {}
+            self.dataclasses[name] = list(fields)
         return pt
 
     def declare_ufun(self, name, argtypes, rettype, native=None):
